@@ -4,6 +4,7 @@ CONSTANTS
   MAXDEPTH = 2
   VIOLATING = TRUE
   CORE = FALSE
+  EXTENDED = FALSE
 SPECIFICATION Spec
 CHECK_DEADLOCK FALSE
 INVARIANT Emit
